@@ -7,9 +7,11 @@ from optuna.study._multi_objective import _is_pareto_front
 
 def _compute_2d(sorted_pareto_sols: np.ndarray, reference_point: np.ndarray) -> float:
     assert sorted_pareto_sols.shape[1] == 2 and reference_point.shape[0] == 2
-    rect_diag_y = np.append(reference_point[1], sorted_pareto_sols[:-1, 1])
+    # The running minimum and the clipping make dominated or duplicated points contribute nothing,
+    # so that the result is correct even if ``assume_pareto=True`` is wrongly given.
+    rect_diag_y = np.minimum.accumulate(np.append(reference_point[1], sorted_pareto_sols[:-1, 1]))
     edge_length_x = reference_point[0] - sorted_pareto_sols[:, 0]
-    edge_length_y = rect_diag_y - sorted_pareto_sols[:, 1]
+    edge_length_y = np.maximum(rect_diag_y - sorted_pareto_sols[:, 1], 0.0)
     return edge_length_x @ edge_length_y
 
 
